@@ -90,9 +90,66 @@ def _cfg_lattice_coherent(rng):
   return kw
 
 
+def _invalidate_lattice(cfg, rng):
+  """Single-fault injection: a configuration that is valid by construction with exactly one documented rule broken."""
+  cfg = dict(cfg)
+  sizes = list(cfg["lattice_sizes"])
+  rank = len(sizes)
+  mono = [1 if m in (1, "increasing") else 0 for m in cfg["monotonicities"]]
+  t = lambda *a: a
+  faults = ["size1", "mono_value", "min_gt_max", "interpolation", "trust_direction", "dominance_free_dim", "trust_free_main", "self_trust",
+            "mono_and_unimodal", "unimodal_small_dim", "ju_direction", "dim_out_of_range"]
+  f = faults[int(rng.randint(len(faults)))]
+  free = [d for d in range(rank) if not mono[d]]
+  monos = [d for d in range(rank) if mono[d]]
+  if f == "size1":
+    sizes[int(rng.randint(rank))] = 1
+    cfg["lattice_sizes"] = sizes
+  elif f == "mono_value":
+    m = list(cfg["monotonicities"]); m[int(rng.randint(rank))] = [2, -1, "decreasing"][int(rng.randint(3))]
+    cfg["monotonicities"] = m
+  elif f == "min_gt_max":
+    cfg["output_min"], cfg["output_max"] = 1.0, 0.0
+  elif f == "interpolation":
+    cfg["interpolation"] = "bogus"
+  elif f == "trust_direction" and rank >= 2 and monos:
+    c = [d for d in range(rank) if d != monos[0]][0]
+    cfg["edgeworth_trusts"] = [t(monos[0], c, 2)]
+    cfg["trapezoid_trusts"] = None
+  elif f == "dominance_free_dim" and rank >= 2 and free:
+    other = [d for d in range(rank) if d != free[0]][0]
+    cfg["monotonic_dominances"] = [t(free[0], other)]
+  elif f == "trust_free_main" and rank >= 2 and free:
+    c = [d for d in range(rank) if d != free[0]][0]
+    cfg["edgeworth_trusts"] = None
+    cfg["trapezoid_trusts"] = [t(free[0], c, 1)]
+  elif f == "self_trust" and monos:
+    cfg["edgeworth_trusts"] = [t(monos[0], monos[0], 1)]
+    cfg["trapezoid_trusts"] = None
+  elif f == "mono_and_unimodal" and monos and sizes[monos[0]] >= 3:
+    u = [0] * rank; u[monos[0]] = 1
+    cfg["unimodalities"] = u
+  elif f == "unimodal_small_dim" and free and sizes[free[0]] == 2:
+    u = [0] * rank; u[free[0]] = -1
+    cfg["unimodalities"] = u
+  elif f == "ju_direction" and free and sizes[free[0]] >= 3:
+    cfg["joint_unimodalities"] = ([free[0]], "bogus")
+  elif f == "dim_out_of_range" and rank >= 2:
+    cfg["joint_monotonicities"] = [t(0, rank + 2)]
+  else:
+    cfg["output_min"], cfg["output_max"] = 1.0, 0.0
+    f = "min_gt_max"
+  return cfg, f
+
+
 def _cfg_lattice(rng):
   _state["coherent"] = False
-  if rng.rand() < .6:
+  r = rng.rand()
+  if r < .2:
+    cfg, fault = _invalidate_lattice(_cfg_lattice_coherent(rng), rng)
+    _state["fault"] = fault
+    return cfg
+  if r < .65:
     _state["coherent"] = True
     return _cfg_lattice_coherent(rng)
   sizes = pick(rng, [[2, 2], [2, 3], [3, 3], [3, 3, 2], [2], [3], (2, 3), [2, 2, 2], [1, 2]], 8)
